@@ -142,6 +142,17 @@ class OperatorGraph(DiGraph):
             return self.nodes
 
 
+def _promote_int_dtype(var: dict, value) -> None:
+    """A variable declared with an integer default (`k: 2`) that receives a non-integral value (node-level override,
+    update_var, node_values) becomes a float variable instead of truncating the value."""
+    if var.get("dtype") == "int":
+        try:
+            if _np.any(_np.mod(_np.asarray(value, dtype=float), 1) != 0):
+                var["dtype"] = "float"
+        except (TypeError, ValueError):
+            pass
+
+
 class VectorizedOperatorGraph(DiGraph):
     """Alternate version of `OperatorGraph` that is produced during vectorization. Contents of this version are not
     particularly protected and the instance is not cached."""
@@ -175,6 +186,7 @@ class VectorizedOperatorGraph(DiGraph):
                         op_vars[var_key]["vtype"] = "input"
                     else:
                         op_vars[var_key]["value"] = value if type(value) is list else [value]
+                    _promote_int_dtype(op_vars[var_key], value)
 
             self.add_edges_from(op_graph.edges)
 
@@ -240,6 +252,7 @@ class VectorizedOperatorGraph(DiGraph):
             original_variables = self.nodes[op_key]["variables"]
             for var_key, value in variables_updates.items():
                 var = original_variables[var_key]
+                _promote_int_dtype(var, value)
                 shape = _np.shape(value)
                 shape_sum = _np.sum(shape)
                 if shape_sum > 1:
